@@ -16,9 +16,29 @@ Lemma tight_consts :
   c_TIGHT_MAX_RECT_SIZE = 65536 /\ c_TIGHT_MAX_RECT_WIDTH = 2048 /\ c_encTight = 7.
 Proof. repeat split; reflexivity. Qed.
 
-Lemma conf1 : conf_field 1 0 = Some 32 /\ conf_field 1 1 = Some 1 /\ conf_field 1 2 = Some 1 /\
-  conf_field 1 3 = Some 1 /\ conf_field 1 4 = Some 96.
-Proof. repeat split; reflexivity. Qed.
+(* a tightConf row whose zlib levels are not 0, so that the control bytes are the specification's *)
+Definition conf_ok (conf : Z) : Prop :=
+  exists monoMin idxZ monoZ rawZ divisor palMax,
+    conf_field conf 0 = Some monoMin /\ conf_field conf 1 = Some idxZ /\ conf_field conf 2 = Some monoZ /\
+    conf_field conf 3 = Some rawZ /\ conf_field conf 4 = Some divisor /\ conf_field conf 5 = Some palMax /\
+    idxZ <> 0 /\ monoZ <> 0 /\ rawZ <> 0.
+
+(* finite conjunction over the regenerated table: rows 1, 2, 3 qualify (row 0 is finding F5) *)
+Lemma conf_ok_rows : conf_ok 1 /\ conf_ok 2 /\ conf_ok 3.
+Proof.
+  repeat split; do 6 eexists; (split; [reflexivity|]; split; [reflexivity|]; split; [reflexivity|]; split; [reflexivity|];
+    split; [reflexivity|]; split; [reflexivity|]; repeat split; discriminate).
+Qed.
+
+(* every clamped level is one of these rows unless the client asked for level 0 without JPEG *)
+Lemma tight_conf_index_ok jpeg level : 0 <= level -> (jpeg = true \/ 1 <= level) -> conf_ok (tight_conf_index jpeg level).
+Proof.
+  intros L H. destruct conf_ok_rows as (C1 & C2 & C3). unfold tight_conf_index. destruct jpeg.
+  - destruct (level <? 1) eqn:E1; [exact C1|]. destruct (2 <? level) eqn:E2; [exact C2|].
+    apply Z.ltb_ge in E1, E2. assert (level = 1 \/ level = 2) as [-> | ->] by lia; assumption.
+  - destruct H as [H|H]; [discriminate|]. destruct (1 <? level) eqn:E1; [exact C1|].
+    apply Z.ltb_ge in E1. assert (level = 1) as -> by lia. exact C1.
+Qed.
 
 Definition tp_fmt (p : tight_params) : tight_fmt :=
   mkTF (tp_bypp p) (tp_pack24 p) (tp_be p) (tp_rs p) (tp_gs p) (tp_bs p).
@@ -43,6 +63,23 @@ Proof.
   cbn [tf_tp3 tf_be tf_rs tf_gs tf_bs]. rewrite HP, HB.
   destruct HS as [HS|HS]; inversion HS as [[E1 E2 E3]]; rewrite E1, E2, E3; cbn [app];
     rewrite !Z.shiftr_div_pow2 by lia; change (2 ^ 0) with 1; change (2 ^ 8) with 256; change (2 ^ 16) with 65536;
+    f_equal; f_equal; lia.
+Qed.
+
+(* all six placements of the three bytes in the low 24 bits, either endianness *)
+Lemma tpix_rt_888 p r g b : tp_pack24 p = true ->
+  (tp_rs p = 0 \/ tp_rs p = 8 \/ tp_rs p = 16) -> (tp_gs p = 0 \/ tp_gs p = 8 \/ tp_gs p = 16) ->
+  (tp_bs p = 0 \/ tp_bs p = 8 \/ tp_bs p = 16) ->
+  tp_rs p <> tp_gs p -> tp_rs p <> tp_bs p -> tp_gs p <> tp_bs p ->
+  0 <= r < 256 -> 0 <= g < 256 -> 0 <= b < 256 ->
+  tpix_rt p (grid_pixel_of_value (tp_be p) 4 (r * 2 ^ tp_rs p + g * 2 ^ tp_gs p + b * 2 ^ tp_bs p)).
+Proof.
+  intros HP HR HG HB N1 N2 N3 Hr Hg Hb rest. unfold take_tpixel, tpixel_bytes, tp_fmt, grid_pixel_of_value.
+  cbn [tf_tp3 tf_be tf_rs tf_gs tf_bs]. rewrite HP.
+  destruct (tp_be p); destruct HR as [ER|[ER|ER]]; destruct HG as [EG|[EG|EG]]; destruct HB as [EB|[EB|EB]];
+    rewrite ER, EG, EB in *; try congruence; cbn [app le_bytes rev le_val];
+    rewrite !Z.shiftr_div_pow2 by lia; change (24 - 0) with 24; change (24 - 8) with 16; change (24 - 16) with 8;
+    change (2 ^ 0) with 1; change (2 ^ 8) with 256; change (2 ^ 16) with 65536; change (2 ^ 24) with 16777216;
     f_equal; f_equal; lia.
 Qed.
 
@@ -317,12 +354,13 @@ Qed.
 
 (* ------------------------------------------------------------------ one rectangle *)
 Theorem tight_subrect_roundtrip p w h g payload :
-  (1 <= w)%nat -> (1 <= h)%nat -> wf_grid w h g -> Forall (Forall (tpix_rt p)) g -> tp_conf p = 1 ->
-  tight_subrect p w h g = Some payload -> dec_tight (tp_fmt p) w h payload = Some g.
+  (1 <= w)%nat -> (1 <= h)%nat -> wf_grid w h g -> Forall (Forall (tpix_rt p)) g -> conf_ok (tp_conf p) ->
+  tight_subrect p w h g = Some (TPayload payload) -> dec_tight (tp_fmt p) w h payload = Some g.
 Proof.
-  intros Hw Hh WF RT CONF E. unfold tight_subrect in E. rewrite CONF in E.
-  destruct conf1 as (C0 & C1 & C2 & C3 & C4). rewrite C0, C1, C2, C3, C4 in E. cbv beta iota zeta in E.
-  change (Z.of_nat (w * h) / 96 <? 2) with (Z.of_nat (w * h) / 96 <? 2) in E.
+  intros Hw Hh WF RT CONF E. unfold tight_subrect in E.
+  destruct CONF as (monoMin & idxZ & monoZ & rawZ & divisor & palMax & C0 & C1 & C2 & C3 & C4 & C5 & NI & NM & NR).
+  rewrite C0, C1, C2, C3, C4, C5 in E. cbv beta iota zeta in E.
+  apply Z.eqb_neq in NI, NM, NR.
   set (data := concat g) in *.
   assert (RTD : Forall (tpix_rt p) data).
   { unfold data. clear - RT. induction RT; simpl; [constructor|]. apply Forall_app; split; assumption. }
@@ -330,12 +368,14 @@ Proof.
   match type of E with context [fill_palette ?a ?b ?c] => destruct (fill_palette a b c) as [k|] eqn:FP; [|discriminate] end.
   apply fill_palette_facts in FP. destruct FP as [c FS HD|bg fg FM INB INF NBF|pal LP SUB|].
   - (* fill *)
-    destruct data as [|d t] eqn:ED; [discriminate|]. inversion HD; subst c. inv_some E.
+    destruct data as [|d t] eqn:ED; [discriminate|]. inversion HD; subst c.
+    assert (EP : payload = 128 :: tpixel_bytes p d) by congruence. subst payload. clear E.
     unfold dec_tight. change (128 / 16 =? 8) with true. cbn iota.
     apply Forall_cons_iff in RTD. destruct RTD as [Rd _]. rewrite <- (app_nil_r (tpixel_bytes p d)), Rd.
     cbn [all_consumed]. f_equal. symmetry. apply solid_grid; [assumption|]. fold data. rewrite ED. exact FS.
   - (* mono *)
-    inv_some E. change (if 1 =? 0 then 224 else 80) with 80.
+    rewrite NM in E. assert (EP : payload = 80 :: 1 :: 1 :: tpixel_bytes p bg ++ tpixel_bytes p fg ++ flat_map (mono_row bg) g) by congruence.
+    subst payload. clear E.
     unfold dec_tight. change (80 / 16 =? 8) with false. change (80 / 16 <=? 7) with true.
     change (Z.testbit (80 / 16) 2) with true. cbn iota. change (1 =? 0) with false. change (1 =? 1) with true. cbn iota.
     change (Z.to_nat (1 + 1)) with (length [bg; fg]).
@@ -351,7 +391,8 @@ Proof.
     rewrite Forall_forall in FM. apply FM. unfold data. apply in_concat. eauto.
   - (* indexed palette *)
     match type of E with context [opt_all ?x] => destruct (opt_all x) as [idxs|] eqn:OA; [|discriminate] end.
-    inv_some E. change (if 1 =? 0 then 224 else 96) with 96.
+    rewrite NI in E. assert (EP : payload = 96 :: 1 :: (Z.of_nat (length pal) - 1) :: flat_map (tpixel_bytes p) pal ++ idxs) by congruence.
+    subst payload. clear E.
     destruct (opt_all_pal_index pal data idxs OA) as [LI OM].
     unfold dec_tight. change (96 / 16 =? 8) with false. change (96 / 16 <=? 7) with true.
     change (Z.testbit (96 / 16) 2) with true. cbn iota. change (1 =? 0) with false. change (1 =? 1) with true. cbn iota.
@@ -364,7 +405,8 @@ Proof.
     destruct WF as [LG FW]. rewrite <- LG. rewrite <- (app_nil_r idxs).
     rewrite (dec_index_rows_app pal w g idxs [] FW OM). reflexivity.
   - (* full colour *)
-    inv_some E. change (if 1 =? 0 then 160 else 0) with 0.
+    destruct (tp_jpeg p && negb (tp_s8 p)); [discriminate|]. rewrite NR in E.
+    assert (EP : payload = 0 :: flat_map (tpixel_bytes p) data) by congruence. subst payload. clear E.
     unfold dec_tight. change (0 / 16 =? 8) with false. change (0 / 16 <=? 7) with true.
     change (Z.testbit (0 / 16) 2) with false. cbn iota.
     rewrite <- LD. rewrite <- (app_nil_r (flat_map (tpixel_bytes p) data)).
@@ -373,9 +415,11 @@ Proof.
 Qed.
 
 (* ------------------------------------------------------------------ SendRectSimple *)
+(* a JPEG rectangle (control byte 0x90 only in the model) is lossy by the client's request *)
 Definition tight_rect_ok (p : tight_params) (scr : list (list Z)) (r : wrect) : Prop :=
   w_enc r = 7 /\
-  dec_tight (tp_fmt p) (w_w r) (w_h r) (w_payload r) = Some (crop scr (w_x r) (w_y r) (w_w r) (w_h r)).
+  (w_payload r = [144] /\ tp_jpeg p = true \/
+   dec_tight (tp_fmt p) (w_w r) (w_h r) (w_payload r) = Some (crop scr (w_x r) (w_y r) (w_w r) (w_h r))).
 
 Lemma tpix_rt_crop p g x y cw ch :
   Forall (Forall (tpix_rt p)) g -> Forall (Forall (tpix_rt p)) (crop g x y cw ch).
@@ -387,7 +431,7 @@ Proof.
 Qed.
 
 Theorem send_tight_ok W H scr p x y w h rects :
-  wf_grid W H scr -> Forall (Forall (tpix_rt p)) scr -> tp_conf p = 1 ->
+  wf_grid W H scr -> Forall (Forall (tpix_rt p)) scr -> conf_ok (tp_conf p) ->
   (x + w <= W)%nat -> (y + h <= H)%nat -> (1 <= w)%nat -> (1 <= h)%nat ->
   send_tight p x y w h scr = Ok rects ->
   Forall (tight_rect_ok p scr) rects /\
@@ -413,16 +457,29 @@ Proof.
   { induction pcs as [|[[[a b] c] d] pcs IH]; intros rs INS RC.
     - simpl in RC. inversion RC; subst. split; constructor.
     - cbn [map res_concat] in RC. unfold F at 1 in RC.
-      destruct (tight_subrect p c d (crop scr (x + a) (y + b) c d)) as [pl|] eqn:TS.
+      destruct (tight_subrect p c d (crop scr (x + a) (y + b) c d)) as [[pl|]|] eqn:TS.
       + destruct (res_concat (map F pcs)) as [rb| |] eqn:RB; try discriminate.
         inversion RC; subst rs. clear RC.
         destruct (INS a b c d (or_introl eq_refl)) as (I1 & I2 & I3 & I4).
         destruct (IH rb (fun a' b' c' d' HI => INS a' b' c' d' (or_intror HI)) eq_refl) as [A B].
         split.
-        * constructor; [|exact A]. split; [reflexivity|]. cbn [w_w w_h w_x w_y w_payload].
+        * constructor; [|exact A]. split; [reflexivity|]. right. cbn [w_w w_h w_x w_y w_payload].
           apply tight_subrect_roundtrip; auto.
           -- apply (wf_crop W H); auto; lia.
           -- apply tpix_rt_crop; assumption.
+        * cbn [map app w_x w_y w_w w_h]. rewrite B. reflexivity.
+      + destruct (res_concat (map F pcs)) as [rb| |] eqn:RB; try discriminate.
+        inversion RC; subst rs. clear RC.
+        destruct (IH rb (fun a' b' c' d' HI => INS a' b' c' d' (or_intror HI)) eq_refl) as [A B].
+        split.
+        * constructor; [|exact A]. split; [reflexivity|]. left. split; [reflexivity|].
+          unfold tight_subrect in TS.
+          repeat match type of TS with context [conf_field ?a ?b] => destruct (conf_field a b); [|discriminate] end.
+          cbv beta iota zeta in TS.
+          match type of TS with context [fill_palette ?a ?b ?c] => destruct (fill_palette a b c) as [[ | | | ]|]; try discriminate end.
+          -- destruct (concat (crop scr (x + a) (y + b) c d)); discriminate.
+          -- match type of TS with context [opt_all ?u] => destruct (opt_all u); discriminate end.
+          -- destruct (tp_jpeg p); [reflexivity|discriminate].
         * cbn [map app w_x w_y w_w w_h]. rewrite B. reflexivity.
       + destruct (res_concat (map F pcs)); discriminate. }
   destruct (G pieces rects) as [A B]; [|exact E|].
@@ -432,6 +489,6 @@ Qed.
 
 (* F5: configuration 0 (compression level 0) emits control bytes the specification does not know *)
 Theorem tight_level0_refuted :
-  exists g payload, tight_subrect (mkTP 1 false false 0 0 0 0) 1 2 g = Some payload /\
+  exists g payload, tight_subrect (mkTP 1 false false 0 0 0 0 false false) 1 2 g = Some (TPayload payload) /\
     dec_tight (mkTF 1 false false 0 0 0) 1 2 payload = None.
 Proof. exists [[6]; [125]], [160; 6; 125]. split; vm_compute; reflexivity. Qed.
